@@ -19,7 +19,10 @@ struct Case {
 const RULES5: &str = "rule ra { a == 1 <<ma>> }\nrule rb { b == 1 <<mb>> }\nrule rc when z exists { a == 1 }\nrule rd { l[*].x == 1 <<md>> }\nrule re { a exists }\nrule rf {\n  ra or\n  rd\n}\n";
 const RULES_B: &str = "let v = l[*].x\nrule sa { %v in [1, 2] <<sa>> }\nrule sb { some l[*].y exists <<sb>> }\nrule sc { b == a <<sc>> }\n";
 // query-against-query comparisons (several left-hand values missing from / differing with the right-hand side), key captures
-const RULES_C: &str = "rule qa { l[*].x in m[*] <<qa>> }\nrule qb { l[*].x in m <<qb>> }\nrule qc { some l[*].x in m[*] <<qc>> }\nrule qd { l[*].x not in m[*] <<qd>> }\nrule qe { l[*].x == m[*] <<qe>> }\nrule qf { l[*].x != m[*] <<qf>> }\nrule qg { l[*].x < m[*] <<qg>> }\nrule qh { n.* in m <<qh>> }\nrule qi { n[ keys == /k/ ] !empty <<qi>> }\nrule qj {\n  let ks = n[ keys == /k/ ]\n  %ks in m <<qj>>\n}\nrule qk { m[*] in l[*].x <<qk>> }\n";
+const RULES_C: &str = "rule qa { l[*].x in m[*] <<qa>> }\nrule qb { l[*].x in m <<qb>> }\nrule qc { some l[*].x in m[*] <<qc>> }\nrule qd { l[*].x not in m[*] <<qd>> }\nrule qe { l[*].x == m[*] <<qe>> }\nrule qf { l[*].x != m[*] <<qf>> }\nrule qg { l[*].x < m[*] <<qg>> }\nrule qh { n.* in m <<qh>> }\nrule qi { n[ keys == /k/ ] !empty <<qi>> }\nrule qj {\n  let ks = n[ keys == /k/ ]\n  %ks in m <<qj>>\n}\nrule qk { m[*] in l[*].x <<qk>> }\nrule ql { n[ keys in [\"k1\", \"k2\", \"k3\", \"j\"] ] == 5 <<ql>> }\nrule qm { n[ keys not in [\"zz\"] ] < 6 <<qm>> }\nrule qn {\n  let wanted = [\"k3\", \"k1\", \"k2\"]\n  n[ keys in %wanted ] == 0 <<qn>>\n}\n";
+// keys written in another spelling than the data, on structs holding a key in two spellings
+const CASE_RULES: &str = "rule c1 { Cfg.bucket_name == \"camel\" <<c1>> }\nrule c2 { Other.some_key == 1 <<c2>> }\nrule c3 { Cfg.BucketName == \"pascal\" <<c3>> }\nrule c4 { cfg.bucketName exists <<c4>> }\n";
+const CASE_DATA: &str = "{\"Cfg\":{\"bucketName\":\"camel\",\"BucketName\":\"pascal\"},\"Other\":{\"SomeKey\":1}}";
 const DATA: [&str; 3] = ["{\"a\":2,\"b\":2,\"l\":[{\"x\":1},{\"x\":3},{\"y\":0},{\"x\":4},{\"x\":6}],\"m\":[7,8,9,1],\"n\":{\"k1\":5,\"k2\":6,\"k3\":7,\"j\":8}}", "{\"a\":1,\"b\":1,\"l\":[{\"x\":1}],\"m\":[1],\"n\":{\"k1\":1}}", "{\"b\":0,\"l\":[]}"];
 const CFN_RULES: &str = "rule s3 { Resources.*[ Type == 'AWS::S3::Bucket' ].Properties.Name == \"x\" <<name>> }\nrule vol { AWS::EC2::Volume { Properties.Size <= 10 <<size>> } }\nrule cased { resources.*.properties.bucket_name exists }\n";
 const CFN_DATA: &str = "{\n  \"Resources\": {\n    \"b1\": {\"Type\": \"AWS::S3::Bucket\", \"Properties\": {\"Name\": \"y\", \"BucketName\": \"q\"}},\n    \"b2\": {\"Type\": \"AWS::S3::Bucket\", \"Properties\": {\"Name\": \"x\", \"bucketName\": \"r\"}},\n    \"v1\": {\"Type\": \"AWS::EC2::Volume\", \"Properties\": {\"Size\": 50, \"bucket_name\": 1}}\n  }\n}\n";
@@ -47,6 +50,9 @@ fn cases(dir: &str) -> Vec<Case> {
     let d: Vec<String> = DATA.iter().enumerate().map(|(k, t)| w(&format!("d{}.json", k), t)).collect();
     let cr = w("cfn.guard", CFN_RULES);
     let cd = w("cfn.json", CFN_DATA);
+    let csr = w("case.guard", CASE_RULES);
+    let csd = w("case_a.json", CASE_DATA);
+    let csd2 = w("case_b.json", CASE_DATA);
     let fr = w("fn.guard", FN_RULES);
     let fnv = w("fn_naive.guard", FN_RULES_NAIVE);
     let fd = w("fn.json", FN_DATA);
@@ -71,7 +77,7 @@ fn cases(dir: &str) -> Vec<Case> {
         a.extend(sv(extra));
         a
     };
-    let sets: Vec<(&str, Vec<&String>, Vec<&String>)> = vec![("1x1", vec![&r5], vec![&d[0]]), ("2x3", vec![&r5, &rb], vec![&d[0], &d[1], &d[2]]), ("query-query", vec![&rc], vec![&d[0], &d[1]]), ("cfn", vec![&cr], vec![&cd]), ("terraform", vec![&tr], vec![&td]), ("functions", vec![&fr], vec![&fd]), ("date-without-offset", vec![&fnv], vec![&fd]), ("cfn+generic", vec![&cr, &r5], vec![&cd])];
+    let sets: Vec<(&str, Vec<&String>, Vec<&String>)> = vec![("1x1", vec![&r5], vec![&d[0]]), ("2x3", vec![&r5, &rb], vec![&d[0], &d[1], &d[2]]), ("query-query", vec![&rc], vec![&d[0], &d[1]]), ("cfn", vec![&cr], vec![&cd]), ("terraform", vec![&tr], vec![&td]), ("functions", vec![&fr], vec![&fd]), ("key-spellings-same-document-twice", vec![&csr], vec![&csd, &csd2]), ("date-without-offset", vec![&fnv], vec![&fd]), ("cfn+generic", vec![&cr, &r5], vec![&cd])];
     for (sn, rs, ds) in &sets {
         for (mn, extra, cmp) in [
             ("summary-all", vec!["-S", "all"], "lines"),
@@ -297,6 +303,34 @@ pub fn run(tier: &str) -> i32 {
     //      the second answer must be the one a fresh thread gives
     let mut res = res;
     {
+        // the same document twice on one thread must give the same answer twice (and the answer of a fresh thread)
+        for (r, d) in [(CASE_RULES, CASE_DATA), (RULES_C, DATA[0]), (RULES5, DATA[1])] {
+            for verbose in [false, true] {
+                let (r1, d1) = (r.to_string(), d.to_string());
+                let fresh = std::thread::spawn({
+                    let (r1, d1) = (r1.clone(), d1.clone());
+                    move || {
+                        crate::impl_::silence_panics();
+                        crate::impl_::lib_raw(&r1, &d1, verbose)
+                    }
+                })
+                .join()
+                .unwrap_or(Err("thread".into()));
+                let seq = std::thread::spawn(move || {
+                    crate::impl_::silence_panics();
+                    (0..5).map(|_| crate::impl_::lib_raw(&r1, &d1, verbose)).collect::<Vec<_>>()
+                })
+                .join()
+                .unwrap_or_default();
+                res.acc.traces += 6;
+                for (k, x) in seq.iter().enumerate() {
+                    if *x != fresh {
+                        res.acc.violate("library-history", format!("run_checks call #{} on one thread for the same rules and document differs from a fresh thread's answer (verbose={})", k + 1, verbose), json!({"kind":"lib","rules":r,"data":d,"expected":"the same answer every time","observed":format!("{:?}", x).chars().take(300).collect::<String>()}));
+                        break;
+                    }
+                }
+            }
+        }
         let lib_rules = [RULES5, RULES_B, RULES_C];
         let lib_docs = ["{\"a\":1,\"b\":1,\"l\":[{\"x\":1}],\"m\":[1]}", "{\"a\":2,\"b\":1,\"l\":[{\"x\":1}],\"m\":[1]}", "{\"a\":1,\"b\":2,\"l\":[{\"x\":3}],\"m\":[7]}", "{\"a\":9,\"b\":9,\"l\":[{\"y\":1}],\"m\":[1]}"];
         let mut lh = 0u64;
